@@ -1029,16 +1029,21 @@ func genAddress(r *rand.Rand, id string, size int, total int) []string {
 		g.add("pathjoin %s", name)
 		g.add("detaddr %d %s %s %s", p, name, kind, acl)
 		g.add("detaddr %d %s %s %s", q, name, kind, acl)
+		// a third of the creations pass a per-database `Directory` option
+		dir := ""
+		if g.pick(3) == 0 {
+			dir = " dir=alt"
+		}
 		switch g.pick(4) {
 		case 0:
-			g.add("createdb %d %s %s %s", p, name, kind, acl)
-			g.add("createdb %d %s %s %s", p, name, kind, acl)           // again: refused
-			g.add("createdb %d %s %s %s overwrite", p, name, kind, acl) // unless overwrite
+			g.add("createdb %d %s %s %s%s", p, name, kind, acl, dir)
+			g.add("createdb %d %s %s %s%s", p, name, kind, acl, dir)           // again: refused
+			g.add("createdb %d %s %s %s overwrite%s", p, name, kind, acl, dir) // unless overwrite
 			g.add("openlast %d", q)
 			g.add("openlast %d localonly", q)
 			g.add("openlast %d localonly", p)
 		case 1:
-			g.add("createdb %d %s %s %s", p, name, kind, acl)
+			g.add("createdb %d %s %s %s%s", p, name, kind, acl, dir)
 			g.add("parselast")
 		}
 		g.add("closeextra")
@@ -1052,7 +1057,14 @@ func genSnapshot(r *rand.Rand, id string, size int, total int) []string {
 	g := &Gen{r: r}
 	peers := g.r.Perm(total)[:1+g.pick(3)]
 	kind := []string{"log", "kv"}[g.pick(2)]
-	g.add("scn %s kind=%s acl=%s peers=%s", id, kind, joinInts(peers), joinInts(peers))
+	// in a third of the multi-peer scenarios the snapshot is saved while the replicator still has
+	// something to fetch (an aborted request): the saved queue is resumed by the instance that loads it
+	pendingQueue := len(peers) > 1 && g.pick(3) == 0
+	if pendingQueue {
+		g.add("scn %s kind=%s acl=%s peers=%s unreach=fail", id, kind, joinInts(peers), joinInts(peers))
+	} else {
+		g.add("scn %s kind=%s acl=%s peers=%s", id, kind, joinInts(peers), joinInts(peers))
+	}
 	p := peers[0]
 	sizes := []int{0, 1, 255, 256, 1000, 30000, 36700, 36800, 36900, 49000, 65536, 300000}
 	steps := g.pick(size)
@@ -1080,6 +1092,20 @@ func genSnapshot(r *rand.Rand, id string, size int, total int) []string {
 	for _, q := range peers[1:] {
 		if g.pick(3) > 0 {
 			g.add("sync %d %d", p, q)
+		}
+	}
+	if pendingQueue {
+		q := peers[1]
+		if kind == "log" {
+			g.add("add %d %s", q, hx(g.value()))
+		} else {
+			g.add("put %d %s %s", q, hx([]byte{byte('a' + g.pick(3))}), hx(g.value()))
+		}
+		g.add("syncasync %d heads=@heads%d ctx=cancelled", p, q)
+		g.add("settle %d", p)
+		// whoever loads the snapshot cannot reach the block: the resumed fetch fails and stays queued
+		for _, o := range peers[1:] {
+			g.add("cut %d %d", p, o)
 		}
 	}
 	g.add("obs %d", p)
